@@ -41,34 +41,10 @@ def step (running : Option Cfg) (op : Op) (accepted : Bool) : Option Cfg :=
 
 end Spec
 
-/-! ### the region the unchanged code does not satisfy (finding F2) -/
-
-/-- the HTTP app of `c` has a listener *after its first one* whose address somebody else holds:
-    its Start binds the earlier listeners, fails, and does not close them -/
-def httpBindExcluded (c : Cfg) (e : Env) : Bool :=
-  c.apps.any fun a => a.isHttp && a.listen.tail.any fun x => e.blocked.contains x
-
-def opEnv : Op → Option Env
-  | .load _ e => some e
-  | .patch _ e => some e
-  | .del _ e => some e
-  | _ => none
-
-/-- `excluded running op`: the attempt `op`, made while `running` runs, is in F2's region -/
-def excluded (running : Option Cfg) (op : Op) : Bool :=
-  match Spec.attempted running op, opEnv op with
-  | some c, some e => httpBindExcluded c e
-  | _, _ => false
-
 /-- model and spec side by side over a history; the spec is told only whether each attempt was
     accepted -/
 def runBoth : State → Option Cfg → List Op → State × Option Cfg
   | s, r, [] => (s, r)
   | s, r, o :: os => runBoth (step s o).1 (Spec.step r o (step s o).2.accepted) os
-
-/-- no operation of the history falls into F2's region (evaluated along the history) -/
-def noExcluded : State → Option Cfg → List Op → Bool
-  | _, _, [] => true
-  | s, r, o :: os => !excluded r o && noExcluded (step s o).1 (Spec.step r o (step s o).2.accepted) os
 
 end CaddyModel.C01
